@@ -35,11 +35,61 @@ type bodyElement struct {
 
 // paragraphXML represents a paragraph element (<w:p>).
 type paragraphXML struct {
-	XMLName       xml.Name          `xml:"p"`
-	Properties    paragraphPropsXML `xml:"pPr"`
-	Runs          []runXML          `xml:"r"`
-	Hyperlinks    []hyperlinkXML    `xml:"hyperlink"`
-	BookmarkStart []bookmarkXML     `xml:"bookmarkStart"`
+	XMLName       xml.Name           `xml:"p"`
+	Properties    paragraphPropsXML  `xml:"pPr"`
+	BookmarkStart []bookmarkXML      `xml:"bookmarkStart"`
+	Content       []inlineContentXML `xml:",any"` // runs and inline containers of runs, in document order
+}
+
+// runs returns the runs of the paragraph in document order, including those
+// nested in inline containers (hyperlinks, tracked insertions, smart tags,
+// content controls, simple fields).
+func (p *paragraphXML) runs() []runXML {
+	var runs []runXML
+	for _, c := range p.Content {
+		runs = append(runs, c.Runs...)
+	}
+	return runs
+}
+
+// inlineContentXML represents one inline-level child of a paragraph: a run (<w:r>)
+// or a container whose runs belong to the paragraph text at that position
+// (<w:hyperlink>, <w:ins>, <w:smartTag>, <w:sdt>/<w:sdtContent>, <w:fldSimple>, ...).
+type inlineContentXML struct {
+	Runs []runXML
+}
+
+// UnmarshalXML collects the runs below the element in document order.
+func (c *inlineContentXML) UnmarshalXML(d *xml.Decoder, start xml.StartElement) error {
+	switch start.Name.Local {
+	case "r":
+		var run runXML
+		if err := d.DecodeElement(&run, &start); err != nil {
+			return err
+		}
+		c.Runs = append(c.Runs, run)
+		return nil
+	case "del", "moveFrom", "Choice":
+		// Tracked deletions are not part of the text; of mc:AlternateContent
+		// only the fallback is read (as for runs).
+		return d.Skip()
+	}
+	for {
+		tok, err := d.Token()
+		if err != nil {
+			return err
+		}
+		switch t := tok.(type) {
+		case xml.StartElement:
+			var inner inlineContentXML
+			if err := inner.UnmarshalXML(d, t); err != nil {
+				return err
+			}
+			c.Runs = append(c.Runs, inner.Runs...)
+		case xml.EndElement:
+			return nil
+		}
+	}
 }
 
 // paragraphPropsXML represents paragraph properties (<w:pPr>).
